@@ -2,3 +2,4 @@ import MsiProofs.Props.C13
 import MsiProofs.Props.C17
 import MsiProofs.Props.C18
 import MsiProofs.Props.C19
+import MsiProofs.Props.C14
